@@ -39,7 +39,8 @@ pub fn generate(rng: &mut Rng, thorough: bool) -> Vec<String> {
         for sec in exact {
             let ns = if sec.abs() > 8_000_000_000_000_000_000 { sec } else { sec * 1_000_000_000 };
             for g in ZDT_GETTERS {
-                if thorough || matches!(g, "start_of_day" | "hours_in_day" | "hour" | "offset" | "to_plain_datetime" | "to_string" | "day" | "day_of_week") {
+                // (every accessor at the epoch and at the first and last instants; the others on a subset in the quick tier)
+                if thorough || sec == 0 || sec.abs() > 8_000_000_000_000_000_000 || matches!(g, "start_of_day" | "hours_in_day" | "hour" | "offset" | "to_plain_datetime" | "to_string" | "day" | "day_of_week") {
                     v.push(format!("w19_zdt_get {z} {ns} {g}"));
                 }
             }
